@@ -1,9 +1,18 @@
 #!/usr/bin/env python3
 """PyNum -> Lean translator.
 
-Turns closed, loop-free numeric Python functions of /repo/plotink into Lean 4
+Turns closed numeric Python functions of /repo/plotink into Lean 4
 definitions over the dynamically typed value domain `Plotink.Py.Val` (see
-lean/Plotink/Py.lean).  Run on every check, from the *current* source, so the
+lean/Plotink/Py.lean).
+
+Loops: the body of the k-th loop of `f` becomes a non-recursive function `<f>_body<k>` (one pass; its
+parameter `k_` stands for "go round again") and the loop itself a function `<f>_loop<k>`: for `while` by
+structural recursion on an explicit `fuel : Nat` (result `Py.Loop.fuelOut` on exhaustion), for `for` by
+structural recursion over the list of items.  The loop-carried variables are the names assigned in the loop body;
+the other variables the body reads are fixed parameters.  A loop function returns
+`Py.Loop.ret v` (the enclosing function returned `v`), `Py.Loop.done (carried…)` (loop ended) or
+`Py.Loop.fuelOut`.  A function that contains a `while` loop takes an extra leading `(fuel : Nat)` and
+returns `Py.Out` (`val v | fuelOut`) instead of `Py.Val`.  Run on every check, from the *current* source, so the
 theorems in lean/Plotink/Props/*.lean that are stated about `Plotink.Gen.<f>`
 are re-checked against what the code says now.
 
@@ -20,7 +29,8 @@ RESERVED = {'at', 'end', 'from', 'in', 'then', 'else', 'if', 'do', 'let', 'have'
             'protected', 'partial', 'unsafe', 'return', 'for', 'unless', 'try', 'catch', 'finally', 'mut',
             'macro', 'syntax', 'notation', 'prefix', 'infix', 'postfix', 'abbrev', 'example', 'axiom',
             'inductive', 'opaque', 'set_option', 'attribute', 'local', 'scoped', 'nomatch', 'nofun',
-            'using', 'calc', 'this', 'Type', 'Prop', 'Sort', 'R', 'prec', 'ambient', 'tmp_'}
+            'using', 'calc', 'this', 'Type', 'Prop', 'Sort', 'R', 'prec', 'ambient', 'tmp_',
+            'fuel', 'it_', 'its_', 'v_', 'k_'}
 
 
 class Unsupported(Exception):
@@ -65,6 +75,17 @@ class FnTr:
         self.fn = fn
         self.known = known
         self.deps = []
+        self.mutated = []    # parameters updated in place (returned alongside the return value)
+        self.storable = set()
+        self.aux = []        # auxiliary loop functions, in emission order (inner loops first)
+        self.loops = []      # stack of enclosing loops while a loop function is being generated
+        self.nloops = 0
+        self.has_fuel = any(isinstance(x, ast.While) for x in ast.walk(fn))
+        # every name of the function in textual order (parameters first): fixes the parameter order of loop functions
+        self.order = [ident(a.arg) for a in fn.args.args]
+        for x in sorted((x for x in ast.walk(fn) if isinstance(x, ast.Name)), key=lambda x: (x.lineno, x.col_offset)):
+            if ident(x.id) not in self.order:
+                self.order.append(ident(x.id))
 
     # ---------- expressions ----------
     def val(self, e):
@@ -103,6 +124,9 @@ class FnTr:
         if isinstance(e, ast.BinOp):
             ops = {ast.Add: 'add', ast.Sub: 'sub', ast.Mult: 'mul', ast.Div: 'truediv',
                    ast.FloorDiv: 'floordiv', ast.Mod: 'mod'}
+            bitops = {ast.BitOr: 'bitor', ast.BitAnd: 'bitand', ast.BitXor: 'bitxor'}
+            if type(e.op) in bitops:
+                return f"(Py.{bitops[type(e.op)]} {self.val(e.left)} {self.val(e.right)})"
             if type(e.op) not in ops:
                 raise Unsupported(f"binop {type(e.op).__name__}")
             return f"(Py.{ops[type(e.op)]} R prec {self.val(e.left)} {self.val(e.right)})"
@@ -115,7 +139,15 @@ class FnTr:
         if isinstance(e, ast.Subscript):
             if isinstance(e.slice, ast.Constant) and isinstance(e.slice.value, int) and e.slice.value >= 0:
                 return f"(Py.getItem {self.val(e.value)} {e.slice.value})"
-            raise Unsupported("subscript")
+            if isinstance(e.slice, ast.Slice):
+                if e.slice.step is not None:
+                    raise Unsupported("slice step")
+                lo = self.val(e.slice.lower) if e.slice.lower is not None else "Py.Val.none_"
+                hi = self.val(e.slice.upper) if e.slice.upper is not None else "Py.Val.none_"
+                return f"(Py.slice {self.val(e.value)} {lo} {hi})"
+            if isinstance(e.slice, ast.Tuple):
+                raise Unsupported("subscript")
+            return f"(Py.index {self.val(e.value)} {self.val(e.slice)})"
         if isinstance(e, ast.Call):
             return self.call(e)
         raise Unsupported(f"expr {type(e).__name__}")
@@ -157,6 +189,8 @@ class FnTr:
                         self.defined = saved
                 else:
                     raise Unsupported(f"missing arg {p}")
+            if any(isinstance(x, ast.While) for x in ast.walk(callee)):
+                raise Unsupported(f"call of {short}, which contains a while loop (fuel)")
             if short not in self.deps and short != self.fn.name:
                 self.deps.append(short)
             return f"({short} R prec " + " ".join(A) + ")"
@@ -170,6 +204,10 @@ class FnTr:
             if n == 'float':
                 return f"(Py.float_ R {A[0]})"
             return f"(Py.{simple[n]} {A[0]})"
+        if n == 'len' and len(A) == 1:
+            return f"(Py.len_ {A[0]})"
+        if n == 'range' and 1 <= len(A) <= 3:
+            return "(Py.range_ [" + ", ".join(A) + "])"
         if n == 'max' and len(A) >= 2:
             return "(Py.max_ [" + ", ".join(A) + "])"
         if n == 'min' and len(A) >= 2:
@@ -238,8 +276,10 @@ class FnTr:
         """'always' | 'never' | 'maybe'"""
         cls = 'never'
         for s in stmts:
-            if isinstance(s, ast.Return):
-                return 'always'
+            if isinstance(s, (ast.Return, ast.Continue, ast.Break)):
+                return 'always'     # control leaves the block
+            if isinstance(s, (ast.While, ast.For, ast.Assert)):
+                cls = 'maybe'
             if isinstance(s, ast.If):
                 a, b = self.ret_class(s.body), self.ret_class(s.orelse)
                 if a == 'always' and b == 'always':
@@ -258,6 +298,9 @@ class FnTr:
         elif isinstance(t, ast.Attribute):
             if 'prec' not in out:
                 out.append('prec')
+        elif isinstance(t, ast.Subscript) and isinstance(t.value, ast.Name):
+            if ident(t.value.id) not in out:    # in-place update of a list = rebinding of the name (value semantics)
+                out.append(ident(t.value.id))
         else:
             raise Unsupported("assignment target")
 
@@ -269,8 +312,20 @@ class FnTr:
                     self.target_names(t, out)
             elif isinstance(s, ast.AugAssign):
                 self.target_names(s.target, out)
+            elif isinstance(s, ast.Delete):
+                for t in s.targets:
+                    self.target_names(t, out)
             elif isinstance(s, ast.If):
                 for n in self.assigned(s.body) + self.assigned(s.orelse):
+                    if n not in out:
+                        out.append(n)
+            elif isinstance(s, ast.While):
+                for n in self.assigned(s.body):
+                    if n not in out:
+                        out.append(n)
+            elif isinstance(s, ast.For):
+                self.target_names(s.target, out)
+                for n in self.assigned(s.body):
                     if n not in out:
                         out.append(n)
         return out
@@ -303,21 +358,49 @@ class FnTr:
                         raise Unsupported("dps value")
                     return [f"{pad}let prec := Py.dpsToPrec {s.value.value}"]
                 raise Unsupported("attribute assign")
+            if isinstance(t, ast.Subscript):
+                return [pad + self.store(t, self.val(s.value))]
             lines = []
             v = self.val(s.value)
             self.unpack(t, v, pad, lines)
             return lines
+        if isinstance(s, ast.Delete):
+            return [pad + self.store(t, None) for t in s.targets]
         if isinstance(s, ast.AugAssign):
             ops = {ast.Add: 'add', ast.Sub: 'sub', ast.Mult: 'mul', ast.Div: 'truediv'}
-            if type(s.op) not in ops or not isinstance(s.target, ast.Name):
+            bitops = {ast.BitOr: 'bitor', ast.BitAnd: 'bitand', ast.BitXor: 'bitxor'}
+            if type(s.op) not in ops and type(s.op) not in bitops or not isinstance(s.target, ast.Name):
                 raise Unsupported("augassign")
             n = ident(s.target.id)
             if n not in self.defined:
                 raise Unsupported("augassign of undefined")
+            if type(s.op) in bitops:
+                return [f"{pad}let {n} := (Py.{bitops[type(s.op)]} {n} {self.val(s.value)})"]
             return [f"{pad}let {n} := (Py.{ops[type(s.op)]} R prec {n} {self.val(s.value)})"]
         if isinstance(s, ast.Pass):
             return []
         raise Unsupported(f"stmt {type(s).__name__}")
+
+    def store(self, t, v):
+        """`a[i] = v`, `a[i:j] = v`, `del a[i]`, `del a[i:j]` (v is None) on a list held in a plain name"""
+        if not (isinstance(t, ast.Subscript) and isinstance(t.value, ast.Name)):
+            raise Unsupported("store target")
+        n = ident(t.value.id)
+        if n not in self.defined:
+            raise Unsupported("store into undefined name")
+        if n not in self.storable:
+            raise Unsupported(f"in-place update of {n}, which may be aliased")
+        if isinstance(t.slice, ast.Slice):
+            if t.slice.step is not None:
+                raise Unsupported("slice step")
+            lo = self.val(t.slice.lower) if t.slice.lower is not None else "Py.Val.none_"
+            hi = self.val(t.slice.upper) if t.slice.upper is not None else "Py.Val.none_"
+            return f"let {n} := (Py.setSlice {n} {lo} {hi} {v if v is not None else '(Py.Val.tup [])'})"
+        if isinstance(t.slice, ast.Tuple):
+            raise Unsupported("subscript")
+        if v is None:
+            return f"let {n} := (Py.delItem {n} {self.val(t.slice)})"
+        return f"let {n} := (Py.setItem {n} {self.val(t.slice)} {v})"
 
     @staticmethod
     def tup(V):
@@ -334,7 +417,21 @@ class FnTr:
         if isinstance(s, ast.Return):
             if mode != 'ret':
                 raise Unsupported("return in joined block")
-            return [pad + (self.val(s.value) if s.value is not None else 'Py.Val.none_')]
+            return [pad + self.wrap_ret(self.source_ret(self.val(s.value) if s.value is not None else 'Py.Val.none_'))]
+        if isinstance(s, (ast.Continue, ast.Break)):
+            if mode != 'ret' or not self.loops:
+                raise Unsupported("continue/break outside a loop body")
+            return [pad + self.loops[-1]['continue' if isinstance(s, ast.Continue) else 'break']]
+        if isinstance(s, ast.Assert):
+            if mode != 'ret':
+                raise Unsupported("assert in joined block")
+            c = self.cond(s.test)
+            return ([f"{pad}if {c} then"] + self.seq(rest, ind + 1, final, mode)
+                    + [f"{pad}else", f"{pad}  {self.wrap_ret('Py.Val.err')}"])   # AssertionError
+        if isinstance(s, (ast.While, ast.For)):
+            if mode != 'ret':
+                raise Unsupported("loop in joined block")
+            return self.loop(s, rest, ind, final)
         if isinstance(s, ast.If):
             a, b = self.ret_class(s.body), self.ret_class(s.orelse)
             c = self.cond(s.test)
@@ -376,8 +473,133 @@ class FnTr:
             return [f"{pad}if {c} then"] + A + [f"{pad}else"] + B
         return self.simple(s, ind) + self.seq(rest, ind, final, mode)
 
+    # ---------- loops ----------
+    def source_ret(self, v):
+        """value of a source-level `return v`: a function that mutates list parameters in place (item/slice
+        assignment, `del`) returns the tuple (v, final value of each mutated parameter, in parameter order)"""
+        if not self.mutated:
+            return v
+        return "(Py.Val.tup [" + ", ".join([v] + self.mutated) + "])"
+
+    def wrap_ret(self, v):
+        """how `return v` is rendered where we are: inside a loop function, in a function with fuel, or plainly"""
+        if self.loops:
+            return f"Py.Loop.ret {v}"
+        if self.has_fuel:
+            return f"Py.Out.val {v}"
+        return v
+
+    def fuel_out(self):
+        if self.loops:
+            return "Py.Loop.fuelOut"
+        if self.has_fuel:
+            return "Py.Out.fuelOut"
+        return "Py.Val.err"     # unreachable: a function without `while` has no fuel to run out of
+
+    @staticmethod
+    def reads(nodes):
+        out = set()
+        for n in nodes:
+            for x in ast.walk(n):
+                if isinstance(x, ast.Name):
+                    out.add(ident(x.id))
+        return out
+
+    def loop(self, s, rest, ind, final):
+        """`while`/`for` statement followed by `rest`: emit the auxiliary loop function, return the call site"""
+        pad = '  ' * ind
+        if s.orelse:
+            raise Unsupported("loop else clause")
+        is_for = isinstance(s, ast.For)
+        self.nloops += 1
+        lname = f"{self.fn.name}_loop{self.nloops}"
+        carried = []
+        if is_for:
+            self.target_names(s.target, carried)
+        for n in self.assigned(s.body):
+            if n not in carried:
+                carried.append(n)
+        if 'prec' in carried:
+            raise Unsupported("precision assignment inside a loop")
+        pre = []
+        for v in carried:
+            if v not in self.defined:
+                pre.append(f"{pad}let {v} := Py.Val.err")
+                self.defined.add(v)
+        test = [] if is_for else [s.test]
+        used = self.reads(list(s.body) + test)
+        env = [v for v in self.order if v in self.defined and v in used and v not in carried]
+        needs_fuel = any(isinstance(x, ast.While) for x in ast.walk(s))
+        envsig = "".join(f" ({v} : Py.Val)" for v in env)
+        envargs = "".join(f" {v}" for v in env)
+        cargs = "".join(f" {v}" for v in carried)
+        ctuple = "(" + ", ".join(carried) + ")" if carried else "()"
+        ctype = " × ".join("Py.Val" for _ in carried) if carried else "Unit"
+        # ----- the loop: `<f>_body<k>` is one pass (non-recursive; `k_` is "go round again"), `<f>_loop<k>` iterates it
+        bname = f"{self.fn.name}_body{self.nloops}"
+        inner_fuel = any(isinstance(x, ast.While) for b in s.body for x in ast.walk(b))
+        saved_defined, saved_loops = self.defined, self.loops
+        self.defined = set(env) | set(carried) | {'prec'}
+        ktype = f"{'Py.Val → ' * len(carried)}Py.Loop ({ctype})"
+        bfix = envsig + (" (fuel : Nat)" if inner_fuel else "")
+        bfixargs = envargs + (" fuel" if inner_fuel else "")
+        ctx = {'continue': f"k_{cargs}", 'break': f"Py.Loop.done {ctuple}"}
+        self.loops = saved_loops + [ctx]
+        cont = lambda i: ['  ' * i + ctx['continue']]
+        csig = "".join(f" ({v} : Py.Val)" for v in carried)
+        if is_for:
+            bhead = [f"def {bname} (R : Rounding) (prec : Nat){bfix} (k_ : {ktype}) (it_ : Py.Val){csig} : Py.Loop ({ctype}) :="]
+            body = []
+            self.unpack(s.target, "it_", '  ', body)
+            body += self.seq(list(s.body), 1, final=cont, mode='ret')
+            fixed = envsig + (" (fuel : Nat)" if needs_fuel else "")
+            fixargs = envargs + (" fuel" if needs_fuel else "")
+            lhead = [f"def {lname} (R : Rounding) (prec : Nat){fixed} :",
+                     f"    List Py.Val →{' Py.Val →' * len(carried)} Py.Loop ({ctype})",
+                     f"  | []{''.join(', ' + v for v in carried)} => Py.Loop.done {ctuple}",
+                     f"  | it_ :: its_{''.join(', ' + v for v in carried)} =>",
+                     f"    {bname} R prec{bfixargs} ({lname} R prec{fixargs} its_) it_{cargs}"]
+        else:
+            bhead = [f"def {bname} (R : Rounding) (prec : Nat){bfix} (k_ : {ktype}){csig} : Py.Loop ({ctype}) :="]
+            always = isinstance(s.test, ast.Constant) and bool(s.test.value)
+            if always:
+                body = self.seq(list(s.body), 1, final=cont, mode='ret')
+            else:
+                c = self.cond(s.test)
+                body = ([f"  if {c} then"] + self.seq(list(s.body), 2, final=cont, mode='ret')
+                        + ["  else", "    " + ctx['break']])
+            fixargs = envargs
+            lhead = [f"def {lname} (R : Rounding) (prec : Nat){envsig} :",
+                     f"    Nat →{' Py.Val →' * len(carried)} Py.Loop ({ctype})",
+                     f"  | 0{', _' * len(carried)} => Py.Loop.fuelOut",
+                     f"  | fuel + 1{''.join(', ' + v for v in carried)} =>",
+                     f"    {bname} R prec{bfixargs} ({lname} R prec{fixargs} fuel){cargs}"]
+        self.aux.append("\n".join(bhead + body))
+        self.aux.append("\n".join(lhead))
+        self.defined, self.loops = saved_defined, saved_loops
+        # ----- the call site
+        inner = pad
+        lines = list(pre)
+        if is_for:
+            lines += [f"{pad}match Py.iter {self.val(s.iter)} with",
+                      f"{pad}| none => {self.wrap_ret('Py.Val.err')}",
+                      f"{pad}| some its_ =>"]
+            inner = pad + '  '
+            call = f"{lname} R prec{fixargs} its_{cargs}"
+        else:
+            call = f"{lname} R prec{fixargs} fuel{cargs}"
+        lines += [f"{inner}match {call} with",
+                  f"{inner}| Py.Loop.ret v_ => {self.wrap_ret('v_')}",
+                  f"{inner}| Py.Loop.fuelOut => {self.fuel_out()}",
+                  f"{inner}| Py.Loop.done {ctuple} =>"]
+        self.defined |= set(carried)
+        return lines + self.seq(rest, len(inner) // 2 + 1, final, 'ret')
+
     def signature(self):
         params = [ident(a.arg) for a in self.fn.args.args]
+        if self.has_fuel:
+            return (f"def {self.fn.name} (R : Rounding) (ambient : Nat) (fuel : Nat) "
+                    + " ".join(f"({p} : Py.Val)" for p in params) + " : Py.Out :=")
         return (f"def {self.fn.name} (R : Rounding) (ambient : Nat) "
                 + " ".join(f"({p} : Py.Val)" for p in params) + " : Py.Val :=")
 
@@ -388,15 +610,49 @@ class FnTr:
         params = [ident(a.arg) for a in fn.args.args]
         self.defined = set(params) | {'prec'}
         self.tmp = 0
+        self.analyse_stores(params)
         body = self.strip_doc(fn.body)
         if self.ret_class(body) != 'always':
             body = body + [ast.Return(value=None)]
         lines = [self.signature(), "  let prec := ambient"]
-        lines += self.seq(body, 1, final=lambda i: ['  ' * i + 'Py.Val.none_'], mode='ret')
-        return "\n".join(lines)
+        lines += self.seq(body, 1, final=lambda i: ['  ' * i + self.wrap_ret(self.source_ret('Py.Val.none_'))], mode='ret')
+        return "\n\n".join(self.aux + ["\n".join(lines)])
+
+    def analyse_stores(self, params):
+        """names updated in place (`a[i] = …`, `del a[i:j]`).  Lists are values here, so such an update is only
+        faithful when the list has no second name: every other use of the name must be `a[...]` (indexing or a
+        slice, which copies) or `len(a)`; and it must not be the sequence of an enclosing `for`."""
+        stored = []
+        for x in ast.walk(self.fn):
+            tg = []
+            if isinstance(x, ast.Assign):
+                tg = x.targets
+            elif isinstance(x, ast.Delete):
+                tg = x.targets
+            for t in tg:
+                if isinstance(t, ast.Subscript) and isinstance(t.value, ast.Name) and ident(t.value.id) not in stored:
+                    stored.append(ident(t.value.id))
+        ok_use = set()
+        for x in ast.walk(self.fn):
+            if isinstance(x, ast.Subscript) and isinstance(x.value, ast.Name):
+                ok_use.add(id(x.value))
+            if isinstance(x, ast.Call) and isinstance(x.func, ast.Name) and x.func.id == 'len':
+                for a in x.args:
+                    if isinstance(a, ast.Name):
+                        ok_use.add(id(a))
+        bad = set()
+        for x in ast.walk(self.fn):
+            if isinstance(x, ast.Name) and ident(x.id) in stored and id(x) not in ok_use:
+                bad.add(ident(x.id))
+            if isinstance(x, ast.For):
+                for y in ast.walk(x.iter):
+                    if isinstance(y, ast.Name) and ident(y.id) in stored:
+                        bad.add(ident(y.id))
+        self.storable = set(stored) - bad
+        self.mutated = [p for p in params if p in stored]
 
     def stub(self):
-        return self.signature() + "\n  Py.Val.err"
+        return self.signature() + "\n  " + self.wrap_ret("Py.Val.err")
 
 
 # (module file, function name) in dependency order
@@ -413,6 +669,10 @@ FUNCTIONS = [
     ('plot_utils.py', 'checkLimitsTol'),
     ('plot_utils.py', 'point_in_bounds'),
     ('plot_utils.py', 'constrainLimits'),
+    ('plot_utils.py', 'clip_code'),
+    ('plot_utils.py', 'clip_segment'),
+    ('plot_utils.py', 'points_in_tolerance'),
+    ('plot_utils.py', 'supersample'),
 ]
 
 
